@@ -71,7 +71,8 @@ if op == "add_atom":
     m, ref = build(kind, k)
     before = (list(m.atoms), m.coords.copy())
     a = ml.Atom("N", label="new")
-    coord = [1.0, 2.0, 3.0][: int(w.get("coord_len", 3))]
+    cl = w.get("coord_len", 3)
+    coord = [[1.0, 2.0, 3.0]] if cl == "1x3" else [[1.0], [2.0], [3.0]] if cl == "3x1" else [1.0, 2.0, 3.0][: int(cl)]
     try:
         if kind == "Molecule" and w.get("charge") == "given":
             m.add_atom(a, coord, 0.25)
@@ -125,8 +126,14 @@ elif op == "del_atom":
             bad.append("failed del_atom changed the atom list")
     bad += wf(m, ref)
 elif op in ("append_bond", "append_bonds", "extend_bonds"):
-    m, ref = build(kind, 3, bonds=((0, 1),))
-    a2 = ml.Atom("Cl", label="foreign") if w.get("foreign") else m.atoms[2]
+    if w.get("formerly_own"):
+        m, ref = build(kind, 4, bonds=((0, 1),))
+        a2 = m.atoms[3]
+        m.del_atom(a2)                      # deleted earlier in the history, now bonded again
+        ref.pop(id(a2), None)
+    else:
+        m, ref = build(kind, 3, bonds=((0, 1),))
+        a2 = ml.Atom("Cl", label="foreign") if w.get("foreign") else m.atoms[2]
     b1 = ml.Bond(m.atoms[1], a2)
     if op == "append_bond":
         m.append_bond(b1)
@@ -134,6 +141,9 @@ elif op in ("append_bond", "append_bonds", "extend_bonds"):
         m.append_bonds(b1, ml.Bond(m.atoms[0], m.atoms[2]))
     else:
         m.extend_bonds([b1, ml.Bond(m.atoms[0], m.atoms[2])])
+    for b in m.bonds:
+        if not any(b.a1 is x for x in m.atoms) or not any(b.a2 is x for x in m.atoms):
+            bad.append("a bond of the molecule ends on an atom that is not in the molecule")
     bad += wf(m, ref)
 elif op in ("connect", "del_bond"):
     m, ref = build("Molecule", 3)
